@@ -358,7 +358,10 @@ func runReadOnly(doc *gedcom.Document, o op) {
 			LivingVisibility: html.LivingVisibilityShow}
 		_ = html.NewPublisher(doc, opts).Publish(&memWriter{}, 1)
 	case "Query":
-		queries := []string{".Individuals | .Name | .String", ".Families | { husband: .Husband | .String, wife: .Wife | .String }", ".Individuals | .Births | .Dates", ".Individuals | Only(.IsLiving) | Length", ".Nodes | .GEDCOMLine"}
+		queries := []string{".Individuals | .Name | .String", ".Families | { husband: .Husband | .String, wife: .Wife | .String }", ".Individuals | .Births | .Dates", ".Individuals | Only(.IsLiving) | Length", ".Nodes | .GEDCOMLine",
+			// functions whose results are cut from, or joined to, lists that the document holds
+			"Combine(.Nodes | First(1), .Nodes | Last(1))", "Combine(.Families | First(1), .Families | Last(1)) | .Pointer", "Combine(.Nodes | First(0), .Individuals)", ".Individuals | First(1) | .Families | First(1) | .Children",
+			"Combine(.Individuals | .Families | First(1), .Families)", ".Nodes | Last(2) | .Nodes | First(1)", ".Individuals | Only(.Name | .Surname = \"Smith\") | .Spouses", "X is .Nodes | First(1); Combine(X, X, .Nodes | Last(1))"}
 		e, err := q.NewParser().ParseString(queries[o.A%len(queries)])
 		if err == nil {
 			_, _ = e.Evaluate([]*gedcom.Document{doc})
